@@ -12,6 +12,10 @@ def colour_arg(c):
         s = c.strip()
         if s.startswith('#'):
             return {'kind': 'hex', 'digits': [int(ch, 16) for ch in s[1:]]}
+        if len(s) in (3, 4, 6, 8) and all(ch in '0123456789abcdefABCDEF' for ch in s):
+            # hexadecimal digits without '#': not a documented notation (a ValueError is acceptable, see may_refuse), but no colour name
+            # consists of hexadecimal digits only, so if it is accepted it can only mean this colour
+            return {'kind': 'hex', 'digits': [int(ch, 16) for ch in s]}
         return {'kind': 'name', 'name': s.lower()}
     if isinstance(c, tuple):
         if len(c) == 4 and isinstance(c[3], float):
@@ -221,11 +225,20 @@ def xpm(text):
 
 # ------------------------------------------------------------------ text grids
 def txt(text, dark='1', light='0'):
+    """cells of the text grid; the writer uses str(dark) / str(light) as the cell of a module, so a cell may be wider than one character"""
+    dark, light = str(dark), str(light)
     lines = text.split('\n')
-    ok = lines[-1] == ''
-    rows = [[ord(ch) for ch in ln] for ln in lines[:-1]]
-    return {'syntax_ok': ok and all(len(dark) == 1 and len(light) == 1 for _ in (0,)), 'rows': rows,
-            'dark_code': ord(dark) if len(dark) == 1 else -1, 'light_code': ord(light) if len(light) == 1 else -1}
+    ok = lines[-1] == '' and len(dark) == len(light) and len(dark) >= 1
+    w = max(1, len(dark))
+    dark_code = ord(dark) if len(dark) == 1 else 1000001
+    light_code = ord(light) if len(light) == 1 else 1000000
+    rows = []
+    for ln in lines[:-1]:
+        if len(ln) % w:
+            ok = False
+        cells = [ln[i:i + w] for i in range(0, len(ln), w)]
+        rows.append([dark_code if c == dark else light_code if c == light else (ord(c) if w == 1 else -2) for c in cells])
+    return {'syntax_ok': ok, 'rows': rows, 'dark_code': dark_code, 'light_code': light_code}
 
 
 _ANSI_RUN = re.compile(r'\x1b\[(\d+)m((?:  )+)\x1b\[0m')
